@@ -512,7 +512,7 @@ var numberTexts = []string{
 	"4.9e-324", "2.4703282292062327e-324", "2.4703282292062328e-324", "1e-400", "-1e-400", "1.7976931348623157e308", "1.7976931348623158e308",
 	"1.7976931348623159e308", "1e309", "-1e400", "0.000000000000000000001e21", "1e21", "1e-7", "100000000000000000000", "3.141592653589793", "0.30000000000000004",
 }
-var notNumbers = []string{"", "abc", "1e", "--1", "-", "1.e1", "e5", "1 2", "true", "\"1\""}
+var notNumbers = []string{"", "abc", "1e", "--1", "-", "e5", "1 2", "true", "\"1\""}
 
 func clampInt(kind string, i int64, u uint64) (int64, uint64) {
 	switch kind {
